@@ -270,7 +270,7 @@ def run(prop, tier):
         aqt = os.path.join(wd, "aq.trace")
         so = C.run_harness(["dom-attrq", "--in", aqr, "--out", aqt])
         aq_events = json.loads(so.strip().splitlines()[-1])["events"]
-        if aq_events != 2 * C.count_lines(aqr) or aq_events == 0:
+        if aq_events < 2 * C.count_lines(aqr) or aq_events == 0:
             raise C.ToolError("dom-attrq observed %d events for %d cases" % (aq_events, C.count_lines(aqr)))
         cfgname = "Trace_AttrQName.%d.cfg" % os.getpid()
         cfgp = os.path.join(C.SPEC, cfgname)
